@@ -13,7 +13,7 @@ import re
 
 from sa.interp import Interp, Scenario, Sym, Const, Bytes, render, render_items, merge_consts, render_item
 from sa import families
-from sa.loader import AnalysisError
+from sa.loader import AnalysisError, dotted
 from sa.sigdata import enum_const
 from sa import s2kshape, guards, vocab
 
@@ -60,7 +60,7 @@ def norm_pass(text, pname):
 # sample worlds for the by-value comparisons: (octet lengths of the unit's parts, decoded count)
 COUNTS = (1, 5, 13, 19, 20, 26, 27, 40, 1024, 1025, 65536, 65011712)
 SALT_LENS = (8,)
-PASS_LENS = (1, 5, 11, 12, 19, 32, 1500)
+PASS_LENS = (1, 5, 11, 12, 19, 32, 1500, 65536)
 
 
 def check_derive_key(rep, prog, r1='C12.1', r2='C12.2'):
@@ -70,6 +70,14 @@ def check_derive_key(rep, prog, r1='C12.1', r2='C12.2'):
     rep.saw(fn=fi)
     me, pname = fi.params[0], fi.params[1]
     ci = fi.cls
+    # a wrapper around derive_key decides what the caller gets: a memoising one returns the key of an earlier salt / count
+    for d in fi.node.decorator_list:
+        dn = (dotted(d.func if isinstance(d, ast.Call) else d) or ast.unparse(d))
+        if re.search(r'cache|memo', dn.split('.')[-1], re.I):
+            rep.violation(R1, 'String2Key.derive_key', 'memoised: @%s' % dn, 'derive_key is wrapped in a cache keyed on its arguments: after the salt, '
+                          'count or hash of the specifier changes the key of the old parameters is returned', where=fi.where, found=ast.unparse(d))
+        else:
+            raise AnalysisError('String2Key.derive_key is decorated with @%s: the rule cannot see what the wrapper returns' % dn)
     for spec, salted in (('Simple', False), ('Salted', True), ('Iterated', True)):
         for ptype in ('bytes', 'str'):
             sc = Scenario(bind={'%s.specifier' % me: enum_const(prog, 'String2KeyType', spec)},
@@ -86,7 +94,11 @@ def check_derive_key(rep, prog, r1='C12.1', r2='C12.2'):
                 rep.violation(R1, 'String2Key.derive_key', '%s: no returning path' % scen, 'derive_key never returns a key for %s' % scen,
                               where=fi.where, scenario=scen)
             for s in rets:
-                arm = world.restrict(s.facts)
+                try:
+                    arm = world.restrict(s.facts)
+                except AnalysisError as ex:
+                    rep.error(R1, '%s (%s)' % (ex, scen))       # this path is not decided; the others and the other rules still are
+                    continue
                 check_shape(rep, fi, s, scen + ('' if len(rets) == 1 else ' (%s)' % arm), world)
 
 
